@@ -137,6 +137,15 @@ class C11(Check):
             return
         cf = gen.gen_corrfunc(rng, nb, npatch, case["auto"], members=members, sparsity=sparsity, special=True,
                               independent_weights=case["seed"] % 3 == 0)
+        if npatch >= 3 and case["seed"] % 4 == 1:
+            # a container derived by selecting patches in another order (auto containers then hold counts
+            # below the diagonal): written and read back like any other
+            sel = rng.permutation(npatch)[: int(rng.integers(2, npatch + 1))].tolist()
+            try:
+                cf = cf.patches[sel]
+                npatch = len(sel)
+            except Exception:
+                pass  # list selections are not part of this property
         path = tmp / "cf.hdf"
         try:
             cf.to_file(path)
